@@ -531,6 +531,37 @@ func vfRunRecProp(which int) func(c vfRecCase) *kit.Result {
 			a.checkC03(r)
 		case 4:
 			a.checkC04(r)
+			if r.Err == "" {
+				// detection itself must not depend on the gates: with the plain detector configuration (gap 1,
+				// one comparison) and no FFC in the stream, a frame is reported as motion exactly when its
+				// programmed pixel toggled against the previous accepted frame and it is not the first frame
+				// since start-up or a reset - whether or not the window is open or storage is available
+				plain := c.Cfg.Gap == 1 && !c.Cfg.TwoDiff
+				for _, e := range c.Ev {
+					if e.F {
+						plain = false
+					}
+				}
+				first := true
+				for i, e := range c.Ev {
+					if !plain {
+						break
+					}
+					switch e.K {
+					case vfEvReset:
+						first = true
+					case vfEvFrame:
+						want := e.M && !first
+						if run.tr.motion[i] != want {
+							r.Failf("frame at event %d: detection reported motion=%v, the programmed pixel says %v (window open=%v): detection must not depend on the recording gates", i, run.tr.motion[i], want, vfWindowActive(c.Cfg, e))
+						}
+						first = false
+					}
+					if r.Err != "" {
+						break
+					}
+				}
+			}
 		}
 		if r.Err != "" {
 			r.Err += "\n  trace:" + vfTraceString(run.tr, 80)
